@@ -102,6 +102,14 @@ def run(e: Engine, rep: Report):
              'partial lines, cursors) is reset by encrypt_socket_client and '
              'encrypt_socket_server')
     r816(e, rep)
+    common.reuse(e, rep, c07.r711, 'R8.17',
+                 '= C07-R7.11: what the server does on its own initiative '
+                 '(greeting, a handshake at the start of the session) is '
+                 'not a verb: no _command_<NAME> that handle() itself starts '
+                 'with can be spelled with the alphabet of the command '
+                 'patterns (a handshake the client can ask for by name runs '
+                 'in the middle of the session and resets nothing)',
+                 only={'R7.11'})
     rep.floor('R8.1', 1, 'socket swap sites')
 
 
